@@ -303,6 +303,10 @@ func C09(c *core.Ctx) error {
 	scns = append(scns, c09scn{id: "config file is not YAML", rawCfg: "packages: [unclosed\n  - {", files: baseFiles(), invalid: true})
 	scns = append(scns, c09scn{id: "config file is a YAML list", rawCfg: "- a\n- b\n", files: baseFiles(), invalid: true})
 	scns = append(scns, c09scn{id: "config file is empty", rawCfg: "\n", files: baseFiles(), invalid: true})
+	// command lines mockery cannot act on: nothing is generated, so the exit status must say so
+	for _, a := range [][]string{{"--no-such-flag"}, {"--config"}, {"--log-level"}, {"-x"}, {"--config", "nope.yml", "--no-such-flag=1"}} {
+		scns = append(scns, c09scn{id: fmt.Sprintf("command line %q (unknown flag / flag without its value)", strings.Join(a, " ")), files: baseFiles(), cfg: func() core.M { r, _, _ := baseCfg(); return r }(), args: a, invalid: true})
+	}
 	scns = append(scns, c09scn{id: "--config names a missing file", files: baseFiles(), cfg: func() core.M { r, _, _ := baseCfg(); return r }(), args: []string{"--config", "nope.yml"}, invalid: true})
 	// ---- valid but unusual inputs: must succeed completely, never crash
 	add("function-local and literal-local interface types", false, func(root core.M, pcs, ics []core.M, files map[string]string, s *c09scn) {
@@ -557,6 +561,6 @@ func C09(c *core.Ctx) error {
 	c.Ev.Set("outcome_classes", classes)
 	c.Ev.Set("cases", len(scns))
 	c.Ev.Set("exhaustive", done == len(scns)*2)
-	c.Ev.Set("rule", "a valid 3-package configuration is perturbed by one fault at a time, the fault placed in each of the three packages and, where it can be written there, at package and interface level: missing listed interface (alone and with the package's interfaces selected through all / include-interface-regex / recursive at package or top level), missing package, type/syntax error, unknown template/formatter/key, unreadable / unparsable / failing template, schema-rejected template-data, cyclic and malformed templated values, invalid regexes, output the formatter rejects, output path occupied, existing file without force, conflicting mocks for one file (different source packages incl. same-named ones, pkgname, template), root-level and config-file-level faults; plus valid-but-unusual inputs (local types, blank-named type declarations, build tags, cgo files, test-only files, empty / non-Go / test-only / nested-module directories under a recursive root, YAML-hostile interface names, go.mod spellings, boolean parameters spelled in every letter case in the environment). Every scenario runs under the sorted and the reversed map iteration order (instrumented binary). Invalid => non-zero exit with a diagnostic; valid => exit 0 and exactly the configured mocks; never a panic trace; distinct_nontrivial = invalid scenarios rejected")
+	c.Ev.Set("rule", "a valid 3-package configuration is perturbed by one fault at a time, the fault placed in each of the three packages and, where it can be written there, at package and interface level: missing listed interface (alone and with the package's interfaces selected through all / include-interface-regex / recursive at package or top level), missing package, type/syntax error, unknown template/formatter/key, unreadable / unparsable / failing template, schema-rejected template-data, cyclic and malformed templated values, invalid regexes, output the formatter rejects, output path occupied, existing file without force, conflicting mocks for one file (different source packages incl. same-named ones, pkgname, template), root-level and config-file-level faults, command lines with an unknown flag or a flag without its value; plus valid-but-unusual inputs (local types, blank-named type declarations, build tags, cgo files, test-only files, empty / non-Go / test-only / nested-module directories under a recursive root, YAML-hostile interface names, go.mod spellings, boolean parameters spelled in every letter case in the environment). Every scenario runs under the sorted and the reversed map iteration order (instrumented binary). Invalid => non-zero exit with a diagnostic; valid => exit 0 and exactly the configured mocks; never a panic trace; distinct_nontrivial = invalid scenarios rejected")
 	return nil
 }
